@@ -10,7 +10,8 @@
    Found p k: the import system loads the module file p (k = false) or the package
    whose directory is p (k = true). *)
 From LP Require Import Prelude.Py Resolve.FsModel Resolve.ModPath Resolve.ModPathSpec
-     Resolve.ModPathLookup Resolve.ModPathFlags Resolve.ModPathRound Resolve.ModPathWalk.
+     Resolve.ModPathLookup Resolve.ModPathFlags Resolve.ModPathRound Resolve.ModPathWalk
+     Resolve.ModPathSelect Resolve.ModPathListPkg Resolve.ModPathSelectProofs Resolve.ModPathHist.
 
 (* Whenever importing the name loads a regular module or package, the lookup yields that
    very file / package directory (hide_init) or its __init__.py (hide_init=False).
@@ -146,3 +147,90 @@ Theorem C18_nonvacuous :
   /\ package_modpaths demo_fs ["r0"; "foo"]
      = [["r0"; "foo"; MAIN]; ["r0"; "foo"; "foobar.py"]; ["r0"; "foo"; "foo_bar"; "x.py"]].
 Proof. exact demo. Qed.
+
+(* ---- the listing the -p selection uses, and the names it gives (nested depth) ------------- *)
+
+(* package_modpaths(pkg, with_pkg=True) yields exactly the .py files - the __init__.py of the
+   package and of its sub-packages included - whose every directory from the package down
+   to their own has an __init__.py (listed_paths_pkg). *)
+Theorem C18_listing_with_packages :
+  forall fs pkg,
+    wf_node fs = true -> no_dir_named INIT fs = true -> isdir fs pkg = true ->
+    forall q, In q (package_modpaths_pkg fs pkg) <-> listed_paths_pkg fs pkg q = true.
+Proof. exact listing_with_packages. Qed.
+
+(* Every file listed for the package r/comps (comps any depth) is turned back into
+   comps ++ (its place inside the package): sub/m.py -> comps.sub.m, sub/__init__.py ->
+   comps.sub.  The parents' prefix is never lost.  (r: a root that is not itself a package;
+   nice_rel: directory names dot-free, file name <identifier>.py.) *)
+Theorem C18_listed_names_keep_prefix :
+  forall fs r comps q,
+    exists_ fs (r ++ [INIT]) = false -> comps <> [] -> forallb name_ok comps = true ->
+    pkgs_down fs r comps = true ->
+    listed_paths_pkg fs (r ++ comps) q = true ->
+    nice_rel (skipn (length (r ++ comps)) q) = true ->
+    modpath_to_modname fs q true false = Ok (comps ++ relname (skipn (length (r ++ comps)) q)).
+Proof. exact listed_name. Qed.
+
+(* The model of ProfmodExtractor._get_modnames_to_profile_from_prof_mod for a regular package
+   selected by dotted name: the selection is the name itself plus exactly the names
+   comps ++ relname(..) of the listed files.  PARTIAL: roots_plain (the script directory and the
+   search roots are not package directories; otherwise C18_roundtrip_root_package_refuted
+   applies) and regular file names inside the package. *)
+Theorem C18_selection_names_partial :
+  forall fs sp script (comps : list name) p,
+    wf_node fs = true -> no_dir_named INIT fs = true ->
+    roots_plain fs (dirname script :: sp) = true -> names_ok comps = true ->
+    syspath_lookup fs (dirname script :: sp) comps = Some p -> isdir fs p = true ->
+    forallb (fun q => nice_rel (skipn (length p) q)) (package_modpaths_pkg fs p) = true ->
+    exists l, modnames_to_profile fs sp script [PName comps] = Ok l
+      /\ forall s, In s l <->
+           s = join "." comps
+           \/ exists q, listed_paths_pkg fs p q = true
+                        /\ s = join "." (comps ++ relname (skipn (length p) q)).
+Proof. exact selection_names. Qed.
+
+Theorem C18_selection_nonvacuous :
+  modnames_to_profile nested_fs [["r0"]] ["r0"; "script.py"] [PName ["pkg"; "sub"]]
+  = Ok ["pkg.sub"; "pkg.sub.b"; "pkg.sub.deep"; "pkg.sub.deep.c"]
+  /\ modnames_to_profile nested_fs [["r0"]] ["r0"; "script.py"] [PPath ["r0"; "pkg"; "sub"; "deep"]]
+     = Ok ["pkg.sub.deep"; "pkg.sub.deep.c"]
+  /\ package_modpaths_pkg nested_fs ["r0"; "pkg"; "sub"]
+     = [["r0"; "pkg"; "sub"; INIT]; ["r0"; "pkg"; "sub"; "b.py"]; ["r0"; "pkg"; "sub"; "deep"; INIT];
+        ["r0"; "pkg"; "sub"; "deep"; "c.py"]]
+  /\ forallb (fun q => nice_rel (skipn 3 q)) (package_modpaths_pkg nested_fs ["r0"; "pkg"; "sub"]) = true
+  /\ roots_plain nested_fs [["r0"]; ["r0"]] = true.
+Proof. exact nested_demo. Qed.
+
+(* ---- histories: file-system operations interleaved with queries ------------------------------ *)
+
+(* The resolver of the model has no state but the directory tree: in any history (creating and
+   removing files and directories, replacing the whole tree, asking lookups, path-to-name,
+   listings and selections in between) the answer to a question is `ask` on the tree of that
+   moment; two histories that end in the same tree get the same answer; asking does not
+   change later answers.  The implementation is driven with such histories inside one process
+   and compared with `ask` at every moment (harness/props/c18.py, scenarios tagged "history"). *)
+Theorem C18_answers_depend_on_current_tree_only :
+  (forall fs h q d, last (run fs (h ++ [Ask q])) d = ask (fs_after fs h) q)
+  /\ (forall fs1 h1 fs2 h2 q d,
+        fs_after fs1 h1 = fs_after fs2 h2 ->
+        last (run fs1 (h1 ++ [Ask q])) d = last (run fs2 (h2 ++ [Ask q])) d)
+  /\ (forall fs qs q, run fs (map Ask qs ++ [Ask q]) = run fs (map Ask qs) ++ [ask fs q]).
+Proof. exact history_answer. Qed.
+
+(* a plain directory below a package becomes a package and stops being one again: the name of
+   the file in it, the lookup of that name and the listing of the package follow the tree *)
+Theorem C18_history_nonvacuous :
+  run hist_fs [Ask (QName hist_helper true false);
+               Ask (QLookup [["r0"]] ["pkg"; "tools"; "helper"] true false);
+               Do (MkFile hist_init);
+               Ask (QName hist_helper true false);
+               Ask (QLookup [["r0"]] ["pkg"; "tools"; "helper"] true false);
+               Ask (QList ["r0"; "pkg"]);
+               Do (Remove hist_init);
+               Ask (QName hist_helper true false);
+               Ask (QList ["r0"; "pkg"])]
+  = [AName (Ok ["helper"]); APath None;
+     AName (Ok ["pkg"; "tools"; "helper"]); APath (Some hist_helper); APaths [hist_helper];
+     AName (Ok ["helper"]); APaths []].
+Proof. exact history_demo. Qed.
